@@ -71,6 +71,7 @@ class FieldMap:
 
 class Path:
     def __init__(self):
+        self.pc_ids = set()
         self.pc = []  # z3 Bools (quantifier-free conjuncts and quantified facts, flagged by is_quantifier)
         self.env = {}
         self.heap = {}  # field -> FieldMap
@@ -89,6 +90,7 @@ class Path:
     def clone(self):
         p = Path.__new__(Path)
         p.pc = list(self.pc)
+        p.pc_ids = set(self.pc_ids)
         p.env = dict(self.env)
         p.heap = dict(self.heap)
         p.entry_heap = self.entry_heap
@@ -117,6 +119,10 @@ class Path:
             return
         if self.guards:
             c = sv.Implies(sv.And(*self.guards), c)
+        h = c.get_id()
+        if h in self.pc_ids:
+            return
+        self.pc_ids.add(h)
         self.pc.append(c)
 
     def hyps(self):
